@@ -10,9 +10,11 @@ GOOD = {"int": [1, "2", 3.0], "str": ["a", "bc"], "PositiveInt": [1, "5"], "List
         "Dict[str, int]": [{"a": 1}, {}], "Tuple[int, str]": [(1, "a"), ["2", "b"]], "Union[int, str]": [1, "a"],
         "Month": [1, 12], "bool": [True, "false"], "float": [1.5, "2"]}
 # values that are certainly rejected (lenient conversion accepts almost anything for str / bool / unions)
-BAD = {"int": ["x", "abc", "1.5x"], "PositiveInt": [0, -1, "x"], "List[int]": [[1, "x"], ["a"]],
-       "Dict[str, int]": [{"a": "x"}], "Tuple[int, str]": [("x", "a"), (1,)],
-       "Month": [13, 0, "x"], "float": ["x", "abc"]}
+BAD = {"int": ["x", "abc", "1.5x", "["], "PositiveInt": [0, -1, "x", None, "["], "List[int]": [[1, "x"], ["a"], "[", {"a": None}],
+       "Dict[str, int]": [{"a": "x"}, None, 5, "["], "Tuple[int, str]": [("x", "a"), (1,), None, 5],
+       "Month": [13, 0, "x", None], "float": ["x", "abc", "["]}
+# (None and other values the origin class of a constrained / generic type cannot be made from: the conversion error ends the
+#  parse of that field in both modes)
 
 
 def make_class(rng):
